@@ -14,8 +14,11 @@ import vlib
 
 
 def design(ctx):
-    r = vlib.run_tlc(ctx, "Store.tla", "Store.cfg", timeout=1200)
-    vlib.require_tlc_ok(r, "Store.tla (ordered loader) must satisfy its invariants")
+    """quick: 3 bulks, 3 fractions, 1 bulk in flight (85 k states); thorough: 4 fractions (680 k) and 2 bulks in flight (2 M)."""
+    cfgs = ["Store_q.cfg"] if ctx.quick() else ["Store_q.cfg", "Store.cfg", "Store_p2.cfg"]
+    for c in cfgs:
+        r = vlib.run_tlc(ctx, "Store.tla", c, timeout=3000)
+        vlib.require_tlc_ok(r, "Store.tla (ordered loader, %s) must satisfy its invariants" % c)
     r2 = vlib.run_tlc(ctx, "Store.tla", "Store_asis.cfg", timeout=1200, quiet=True)
     if r2.violated != "CreationOrder":
         raise vlib.Infra("Store_asis.cfg: the model of the loader as it was is expected to violate CreationOrder, got %s" % r2.violated)
